@@ -184,6 +184,13 @@ def dispatch {κ : Type} (T : Tables) (f : String) (args : List Arg) (kw : κ) :
   let ov := overloaded T.classes args
   if hasOp ov then handlers T f ov args kw ov else .native
 
+/-- As `dispatch`, with tensor-like objects also passed *by keyword* (`kwops`, e.g. `other=op`, `out=buf`):
+torch collects overloaded arguments from positional and keyword arguments alike, but
+`__torch_function__` looks at the positional tuple `args` only (`args[0]`, `args[1]`). -/
+def dispatchK {κ : Type} (T : Tables) (f : String) (args kwops : List Arg) (kw : κ) : Outcome κ :=
+  let ov := overloaded T.classes (args ++ kwops)
+  if hasOp ov then handlers T f ov args kw ov else .native
+
 /-! ### Denotational layer for the two-operand functions -/
 
 inductive BinFn
